@@ -21,6 +21,6 @@ export CARGO_TARGET_DIR=$M/target VERIF_NO_REGRESS=${VERIF_NO_REGRESS:-}
 ( cd $M/verif/harness && CARGO_NET_OFFLINE=true cargo build --profile verif --bin vcheck 2>$M/build.log ) || { grep -E "^error" -A8 $M/build.log | head -30; echo "BUILD FAILED"; exit 2; }
 for p in "$@"; do
   out=$(VERIF_ROOT=$M/verif VERIF_SEED=${VERIF_SEED:-1} $M/target/verif/vcheck $p 2>/dev/null); rc=$?
-  echo "== $p rc=$rc"; echo "$out" | grep "^violation\|^VIOLATION\|tier=\|regress case" | cut -c1-260 | head -6
+  echo "== $p rc=$rc"; echo "$out" | grep "^violation\|^VIOLATION\|tier=\|regress case" | cut -c1-260 | tail -6
 done
 git -C $M/repo checkout -q -- .
